@@ -26,8 +26,13 @@ import (
 	"unsafe"
 
 	"elaverif/harness/hx"
+	"elaverif/harness/wire"
 
+	"github.com/elastos/Elastos.ELA/blockchain"
 	"github.com/elastos/Elastos.ELA/common"
+	"github.com/elastos/Elastos.ELA/common/config"
+	"github.com/elastos/Elastos.ELA/core/checkpoint"
+	"github.com/elastos/Elastos.ELA/mempool"
 	crstate "github.com/elastos/Elastos.ELA/cr/state"
 	"github.com/elastos/Elastos.ELA/dpos/state"
 )
@@ -298,7 +303,45 @@ func ser(c codec) []byte {
 	return w.Bytes()
 }
 
+// ---------------------------------------------------------------- mempool checkpoint
+//
+//	mpsnap <tx hex> …   →  live <n> snap <m>
+//
+// A pool holding the given transactions (injected without validation): n = transactions in the
+// pool's live checkpoint, m = transactions in Snapshot() of it — the object the checkpoint manager
+// serializes to the mempool checkpoint file.  Lossless means m = n.
+
+var mpParams = config.GetDefaultParams()
+
+func execMpSnap(t []string) string {
+	if blockchain.DefaultLedger == nil {
+		// appendToTxPool asks the chain for its height before the duplicate check; an empty chain answers 0
+		blockchain.DefaultLedger = &blockchain.Ledger{Blockchain: &blockchain.BlockChain{}}
+	}
+	pool := mempool.NewTxPool(mpParams, checkpoint.NewManager(mpParams))
+	for _, h := range t[1:] {
+		r := bytes.NewReader(hx.UnHex(h))
+		tx, unc, err := wire.DecodeTx(r)
+		if err != nil || unc || tx == nil {
+			panic("harness: mpsnap needs decodable transactions")
+		}
+		pool.VerifInjectTx(tx)
+	}
+	_, n, err := pool.VerifLiveCheckpoint()
+	if err != nil {
+		return "err live"
+	}
+	_, m, err := pool.VerifSnapshotCheckpoint()
+	if err != nil {
+		return "err snap"
+	}
+	return fmt.Sprintf("live %d snap %d", n, m)
+}
+
 func exec(t []string) string {
+	if t[0] == "mpsnap" {
+		return execMpSnap(t)
+	}
 	k := kindOf(t[1])
 	b := hx.UnHex(t[2])
 	_, n, err := decode(k, b)
@@ -315,6 +358,13 @@ func exec(t []string) string {
 func oracle(t []string, out string) *hx.Violation {
 	if out == "panic" {
 		return &hx.Violation{Kind: "decode-panic", Detail: hx.LastPanic()}
+	}
+	if t[0] == "mpsnap" {
+		f := strings.Fields(out)
+		if len(f) == 4 && f[1] != f[3] {
+			return &hx.Violation{Kind: "mempool-snapshot-loses-pool", Detail: fmt.Sprintf("the pool holds %s transactions, the Snapshot() the checkpoint manager writes to disk holds %s", f[1], f[3])}
+		}
+		return nil
 	}
 	if out == "err" {
 		if len(t) > 3 && t[3] != "-" {
@@ -361,6 +411,14 @@ func gen(g *hx.Gen) {
 			g.Emit("ckpt %s %s %s", k.name, hx.Hex(b), digest(want))
 		}
 	}
+	// mempool: pools of 0..4 transactions
+	for i := 0; i < g.N(6, 40); i++ {
+		op := "mpsnap"
+		for k, n := 0, g.R.Intn(5); k < n; k++ {
+			op += " " + hx.Hex(wire.TxBytes(wire.GenTx(g.R, true)))
+		}
+		g.Emit("%s", op)
+	}
 	// empty instances
 	for ki := range kinds {
 		c := kinds[ki].fresh()
@@ -368,10 +426,18 @@ func gen(g *hx.Gen) {
 	}
 }
 
-func nontrivial(t []string, out string) bool { return out != "err" && len(t[2]) > 64 }
+func nontrivial(t []string, out string) bool {
+	if t[0] == "mpsnap" {
+		return len(t) > 1
+	}
+	return out != "err" && len(t[2]) > 64
+}
 
 func bucket(t []string, out string) string {
 	f := strings.Fields(out)
+	if t[0] == "mpsnap" {
+		return "mpsnap/" + out
+	}
 	return t[1] + "/" + f[0]
 }
 
